@@ -725,7 +725,7 @@ func judgeFailure(c Case, w *sim.World, who string, err error, at time.Duration,
 	}
 	rtt := time.Duration(c.RTTms) * time.Millisecond
 	ctxGaveUp := errors.Is(err, context.DeadlineExceeded) || errors.Is(err, context.Canceled)
-	if !ctxGaveUp && !isHS { // (a HandshakeTimeoutError is the total-duration limit, not a silence)
+	if !ctxGaveUp && !isHS && !handshake { // during the handshake an intact datagram may still be undecryptable (keys not yet available)
 		if intact, _, _ := w.Router.Silence(dirToE, at-limit+rtt+100*time.Millisecond, at-50*time.Millisecond); intact > 0 {
 			return vf.Bad("C01/liveness/unjustified-timeout", "%s reports %v at %v although %d intact datagrams were delivered to it during the preceding timeout period (%v); faults applied: %v", who, err, at, intact, limit, w.Router.AppliedFaults())
 		}
@@ -770,4 +770,75 @@ func TestSimRandom(t *testing.T) {
 	bubbleT = t
 	vf.ReplayRepeat = 60
 	vf.RunRapid(t, "sim-random", genCase, checkCase)
+}
+
+// scripted scenarios for the exhaustive fault tiers
+func scripted() []Case {
+	return []Case{
+		{Client: "plain", RTTms: 20, IdleMs: 10000, Seed: 11, Streams: []StreamSpec{
+			{Init: "c", Size: 6000, Chunks: []int{1500}, ReadBuf: 4096, RevSize: 6000}}},
+		{Client: "spec:chrome115", RTTms: 20, IdleMs: 10000, Seed: 12, Streams: []StreamSpec{
+			{Init: "c", Uni: true, Size: 9000, Chunks: []int{700, 3000}, ReadBuf: 1000},
+			{Init: "s", Uni: true, Size: 9000, Chunks: []int{9000}, ReadBuf: 333}}},
+		{Client: "unil", V2: true, RTTms: 20, IdleMs: 10000, Seed: 13, Datagrams: 3, Streams: []StreamSpec{
+			{Init: "c", Size: 2400, Chunks: []int{1200}, ReadBuf: 64, RevSize: 1},
+			{Init: "s", Size: 1, Chunks: []int{1}, ReadBuf: 1, RevSize: 2400}}},
+	}
+}
+
+func singleFaults(n int) []sim.Fault {
+	var out []sim.Fault
+	for _, dir := range []string{"c2s", "s2c"} {
+		for nth := 0; nth < n; nth++ {
+			for _, k := range []sim.Fault{{Kind: "drop"}, {Kind: "dup", Arg: 1}, {Kind: "delay", Arg: 30}, {Kind: "flip", Arg: 40, Arg2: 4}, {Kind: "trunc", Arg: 25}} {
+				k.Dir, k.Nth = dir, nth
+				out = append(out, k)
+			}
+		}
+	}
+	return out
+}
+
+// TestSimExhaustive runs every schedule of one fault (quick) and of two faults (thorough) among the first N
+// datagrams per direction x {drop, dup, delay 1.5 RTT, flip, truncate} for each scripted scenario.
+func TestSimExhaustive(t *testing.T) {
+	bubbleT = t
+	u := vf.U("sim-exhaustive")
+	if vf.ReplayMode() {
+		t.Skip("exhaustive failures are recorded under unit sim-random and replay there")
+	}
+	si, sk := vf.Shard()
+	n := 12
+	fs := singleFaults(n)
+	idx := 0
+	run := func(c Case) {
+		idx++
+		if idx%sk != si {
+			return
+		}
+		u.Case()
+		v := vf.Guard("C01/sim-exhaustive", func() *vf.Verdict { return checkCase(c, u) })
+		if v != nil {
+			if vf.U("sim-random").Report(v, c) {
+				t.Fatalf("VIOLATION %s: %s", v.Sig, v.Detail)
+			}
+		}
+	}
+	for _, base := range scripted() {
+		for _, f := range fs {
+			c := base
+			c.Faults = []sim.Fault{f}
+			run(c)
+		}
+		if vf.Thorough() {
+			for i := 0; i < len(fs); i++ {
+				for j := i + 1; j < len(fs); j++ {
+					c := base
+					c.Faults = []sim.Fault{fs[i], fs[j]}
+					run(c)
+				}
+			}
+		}
+	}
+	u.Extra("exhaustive", fmt.Sprintf("3 scripted scenarios x every 1-fault schedule (thorough: and every 2-fault schedule) among the first %d datagrams per direction x {drop,dup,delay,flip,trunc}", n))
 }
